@@ -9,6 +9,7 @@ import SharkVerif.Lemmas.MOOStep
 import SharkVerif.Lemmas.MOOElit
 import SharkVerif.Lemmas.MOOHv
 import SharkVerif.Lemmas.Contrib
+import SharkVerif.Lemmas.MOONsga3
 namespace SharkVerif.C14
 open SharkVerif.MOO SharkVerif.Pareto SharkVerif.HV
 
@@ -603,5 +604,60 @@ theorem steady_run_hv_monotone (r : Pt) (hr : r.length = 2) (step1 : List Indiv 
     obtain ⟨p, hp', hc⟩ := steadyUpdate_mem _ pop _ mu q hq
     simp only [core, Prod.mk.injEq] at hc
     rw [hc.2.1]; exact hall p hp'
+
+/-! ## NSGA-III -/
+
+/-- the same for **every** family of indicators that satisfy the contract (used for NSGA-III below) -/
+theorem generational_update_elitist_any_indicator (ind : List Pt → Indicator) (hind : ∀ pts, IndOK (ind pts)) (parents offspring : List Indiv) (m mu : Nat)
+    (hd : ∀ p ∈ parents ++ offspring, p.pen.length = m) (hmu : 1 ≤ mu) (hn : mu ≤ parents.length + offspring.length) :
+    (genUpdate ind parents offspring mu).length = mu ∧
+    (∀ k ∈ genUpdate ind parents offspring mu, k.sel = true) ∧
+    (genUpdate ind parents offspring mu).Perm
+      ((applySelect ind (parents ++ offspring) mu).filter (·.sel)) ∧
+    (∀ i j, i < parents.length + offspring.length → j < parents.length + offspring.length →
+      ((applySelect ind (parents ++ offspring) mu).getD i default).sel = true →
+      ((applySelect ind (parents ++ offspring) mu).getD j default).sel = false →
+      ((applySelect ind (parents ++ offspring) mu).getD i default).rank ≤
+        ((applySelect ind (parents ++ offspring) mu).getD j default).rank) := by
+  have hdp : ∀ p ∈ (parents ++ offspring).map (·.pen), p.length = m := by
+    intro p hp
+    obtain ⟨q, hq, rfl⟩ := List.mem_map.mp hp
+    exact hd q hq
+  have hcount : (applySelect ind (parents ++ offspring) mu).countP (·.sel) = mu := by
+    rw [applySelect_countP _ _ mu m hd]
+    exact selection_count_on_sorted_population _ (hind _) _ m mu hdp hmu (by simpa using hn)
+  have htr := truncation_keeps_exactly_the_selected (applySelect ind (parents ++ offspring) mu) mu hcount
+  refine ⟨genUpdate_length _ parents offspring mu hn, htr.1, htr.2, ?_⟩
+  intro i j hi hj hsi hsj
+  have hi' : i < (parents ++ offspring).length := by simpa using hi
+  have hj' : j < (parents ++ offspring).length := by simpa using hj
+  rw [applySelect_sel _ _ _ i hi'] at hsi
+  rw [applySelect_sel _ _ _ j hj'] at hsj
+  rw [applySelect_rank _ _ _ i hi', applySelect_rank _ _ _ j hj']
+  have hlen : (fastSort ((parents ++ offspring).map (·.pen))).length = (parents ++ offspring).length := by
+    rw [fastSort_length hdp]; simp
+  have hsl := select_length (ind ((parents ++ offspring).map (·.pen))) (fastSort ((parents ++ offspring).map (·.pen))) mu
+  apply selection_rank_monotone _ _ mu i j (by omega) (by omega) hsi
+  rw [List.getD_eq_getElem?_getD, List.getElem?_eq_getElem (by omega)] at hsj ⊢
+  simpa using hsj
+
+
+/-- **C14 (NSGA-III niche selection)**: whatever the floating-point association step produced (one `(distance key,
+reference direction)` entry per archive and front point, directions in range), `NSGA3Indicator::leastContributors` returns
+`K` distinct positions of the front; hence `IndicatorBasedSelection<NSGA3Indicator>` marks exactly `mu` individuals and
+the update of `RealCodedNSGAIII` keeps exactly the marked individuals, none of worse rank than a discarded one. -/
+theorem nsga3_update_elitist (nz : Nat) (assocOf : List Pt → List Nat → List Nat → List (Nat × Nat))
+    (hassoc : ∀ pts, AssocOK nz (assocOf pts)) (parents offspring : List Indiv) (m mu : Nat)
+    (hd : ∀ p ∈ parents ++ offspring, p.pen.length = m) (hmu : 1 ≤ mu) (hn : mu ≤ parents.length + offspring.length) :
+    IndOK (nsga3Indicator nz (assocOf ((parents ++ offspring).map (·.pen)))) ∧
+    (genUpdate (fun pts => nsga3Indicator nz (assocOf pts)) parents offspring mu).length = mu ∧
+    (∀ k ∈ genUpdate (fun pts => nsga3Indicator nz (assocOf pts)) parents offspring mu, k.sel = true) ∧
+    (genUpdate (fun pts => nsga3Indicator nz (assocOf pts)) parents offspring mu).Perm
+      ((applySelect (fun pts => nsga3Indicator nz (assocOf pts)) (parents ++ offspring) mu).filter (·.sel)) := by
+  have h := generational_update_elitist_any_indicator (fun pts => nsga3Indicator nz (assocOf pts))
+    (fun pts => nsga3Indicator_ok nz _ (hassoc pts)) parents offspring m mu hd hmu hn
+  exact ⟨nsga3Indicator_ok nz _ (hassoc _), h.1, h.2.1, h.2.2.1⟩
+
+example : nsga3Least 2 1 [(5, 0), (3, 0), (1, 1), (2, 1), (4, 0)] 2 = [2, 3] := by decide
 
 end SharkVerif.C14
